@@ -31,11 +31,13 @@ ALPHABET = {
     "r#=arg0": ("i32", "raw", 0, "arg0"),
     "N(=fn)": ("N", "destr", 0, FN),
     "r#=fn": ("i32", "raw", 0, FN),
+    "mut =fn": ("i32", "mut", 0, FN),
+    "ref =fn": ("i32", "ref", 0, FN),
     # single-binding destructurings whose binding is a raw identifier (keyword / non-keyword)
     "N(r#kw)": ("N", "destr", 0, "r#type"),
     "&r#id": ("refi", "destr", 0, "r#v_raw"),
 }
-SPECIAL_ONCE = {"N(r#kw)", "&r#id", "r#=arg0", "=fn", "=fn_", "=fn__", "=arg0", "=arg1", "=_arg1", "N(=fn)", "r#=fn"}
+SPECIAL_ONCE = {"mut =fn", "ref =fn", "N(r#kw)", "&r#id", "r#=arg0", "=fn", "=fn_", "=fn__", "=arg0", "=arg1", "=_arg1", "N(=fn)", "r#=fn"}
 
 
 def valid(lst):
@@ -199,21 +201,33 @@ def run(tier, seed):
         l4 = [l for l in itertools.product(syms, repeat=4) if valid(l)]
         cases += build_cases(l4, "f", [(False, False, "fn")])
         rep.extra["exhaustive_length_4_lists_with_deps"] = len(l4)
-    st = selftest.case("selftest_c16")
-    ws = core.Workspace(PROP, "x")
-    ws.extend(cases + [st])
-    ws.write()
-    b = ws.build()
-    ws.run(b["exes"])
-    selftest.verify(st)
+    # the corpus is processed in chunks of <= 40 000 cases (one workspace each): the token trees recorded for 200 000
+    # expansions do not fit into memory at once together with 16 rustc processes
     by = {c.id: c for c in cases}
-    for c in cases:
-        check_names(c, rep)
-        c01.check_case(c, rep)
+    CH = 40000
+    rounds = 0
+    for k in range(0, len(cases), CH):
+        chunk = cases[k:k + CH]
+        st = selftest.case("selftest_c16_%d" % (k // CH))
+        ws = core.Workspace(PROP, "x%d" % (k // CH))
+        ws.extend(chunk + [st])
+        ws.write()
+        b = ws.build()
+        ws.run(b["exes"])
+        selftest.verify(st)
+        for c in chunk:
+            check_names(c, rep)
+            c01.check_case(c, rep)
+            c.records, c.records_by, c.runrec = [], {}, {}
+        rounds = max(rounds, ws.rounds)
+        ws.all_records = []
+        if len(cases) > CH:
+            import shutil
+            shutil.rmtree(ws.root, ignore_errors=True)
     rep.exhaustive = True
     rep.extra["exhaustive_lists_up_to_length"] = L
     rep.extra["enumerated_lists"] = len(lists)
     rep.extra["sampled_longer_lists"] = len(extra)
-    rep.extra["fixpoint_rounds"] = ws.rounds
+    rep.extra["fixpoint_rounds"] = rounds
     core.floors(rep, methods_checked=len(cases) // 2)
     return rep.finish(by)
